@@ -19,7 +19,7 @@ PROP = {
              "cursor family: for every type holding a bit string or a cell (MsgAddress extern/var, Any, ^Cell, cell slices; 120 "
              "values for MsgAddress, 60 for Message/CommonMsgInfo) the read cursors inside the Go value are advanced by "
              "1/3/8/9/64/511 bits (cells: and one reference) before tlb.Marshal: the cell must equal the one of the fresh value and "
-             "the model's; (4c) exploration support for the types OUTSIDE the model (opaque, decode-only, partial: ~130 types, 12 "
+             "the model's; (4d) exotic cells through boc.Cell positions (implementation only, counted under exotic|kinds|outcome): for every described type with a ^Cell / Ref[Cell] / Maybe[Ref[Cell]] / Any position (60 values for StateInit, Message, SimpleLib, Account, VmStackValue, 4 for the others; x10 thorough) the cells at the ENCODED positions are replaced by library cells (8+256 bits), pruned branches (masks 1..7), Merkle proofs and Merkle updates with consistent children (boc.VerifSetTypeMask), Any values get 1-2 exotic references: every planted cell must occur in the tree tlb.Marshal produces with its hash, cell type and level mask (C03_cell_passthrough on the model side), and, unless a pruned branch is involved (the decoder leaves those empty by design), decode -> encode reproduces the root hash; 40 state-inits built as on chain with library-cell code: decode -> encode reproduces the source hash (keys exotic-passthrough-<Type>, stateinit-exotic-reencode); (4c) exploration support for the types OUTSIDE the model (opaque, decode-only, partial: ~130 types, 12 "
              "values each, 150 thorough): Go values built by reflection (described sub-trees through their descriptor, hand-written "
              "leaves SnakeData/Bytes/Text/FixedLengthText/SignedCoins/Anycast/dictionaries through small generators incl. empty, "
              "zero-length and > 1023-bit fills, one constructor per union, conditional block.tlb fields kept consistent with their "
